@@ -423,7 +423,7 @@ func runCrashCase(r *rep.Reporter, cc crashCase) {
 		return
 	}
 	rng := gen.Rng(r.Seed, "C15-crash-"+cc.String(), cc.seed)
-	keys := []string{"k0", "k1", "dir/k2", "dir/sub/k3", "k4 with space"}
+	keys := []string{"k0", "k1", "dir/k2", "dir/sub/k3", "k4 with space", "deep/a/b/c/k5", "deep2/x/y/k6"}
 	acked := map[string]objState{}
 	var inflightKey string
 	var inflightNew objState
